@@ -57,6 +57,11 @@ theorem toInt_eq (x : W) :
   have := x.isLt
   split <;> split <;> first | rfl | omega
 
+theorem toInt_neg (x : W) : x.toInt < 0 ↔ 9223372036854775808 ≤ x.toNat := by
+  rw [toInt_eq]; split <;> omega
+theorem toInt_nonneg (x : W) : 0 ≤ x.toInt ↔ x.toNat < 9223372036854775808 := by
+  rw [toInt_eq]; split <;> omega
+
 theorem toNat_int_toNat (n : Nat) : (n : Int).toNat = n := Int.toNat_natCast n
 
 theorem I128_eq (a b : I128) : a = b ↔ a.hi.toNat = b.hi.toNat ∧ a.lo.toNat = b.lo.toNat := by
@@ -91,23 +96,7 @@ theorem popAux_le : ∀ (f x : Nat), U128.popAux f x ≤ f
 
 theorem popcount_le (x : W) : U128.popcount x ≤ 64 := popAux_le 64 _
 
-theorem ofNat_len64 (x : W) : (BitVec.ofNat 64 (U128.len64 x)).toNat = U128.len64 x := by
-  have := U128.len64_le x
-  rw [BitVec.toNat_ofNat]; omega
-theorem ofNat_clz (x : W) : (BitVec.ofNat 64 (U128.clz x)).toNat = U128.clz x := by
-  have := clz_le x
-  rw [BitVec.toNat_ofNat]; omega
-theorem ofNat_ctz (x : W) : (BitVec.ofNat 64 (U128.ctz x)).toNat = U128.ctz x := by
-  have := ctz_le x
-  rw [BitVec.toNat_ofNat]; omega
-theorem ofNat_popcount (x : W) : (BitVec.ofNat 64 (U128.popcount x)).toNat = U128.popcount x := by
-  have := popcount_le x
-  rw [BitVec.toNat_ofNat]; omega
 
-theorem len64_mod (x : W) : U128.len64 x % 18446744073709551616 = U128.len64 x := by have := U128.len64_le x; omega
-theorem clz_mod (x : W) : U128.clz x % 18446744073709551616 = U128.clz x := by have := clz_le x; omega
-theorem ctz_mod (x : W) : U128.ctz x % 18446744073709551616 = U128.ctz x := by have := ctz_le x; omega
-theorem popcount_mod (x : W) : U128.popcount x % 18446744073709551616 = U128.popcount x := by have := popcount_le x; omega
 
 /-- the contract results as bounded numbers: `omega` knows `Fin.isLt`, so the `int` arithmetic on them cannot wrap -/
 def len64F (x : W) : Fin 65 := ⟨U128.len64 x, by have := U128.len64_le x; omega⟩
@@ -176,27 +165,46 @@ end GenTie
 /-! ## the proof script -/
 
 /-- rewrite the bit-level idioms, word equalities and `int` comparisons of the goal and of every hypothesis into
-    linear arithmetic over `toNat` -/
-macro "gen_norm" : tactic => `(tactic|
-  try simp only [GenTie.and_sign_eq_zero, GenTie.and_sign_ne_zero, GenTie.zero_eq_and_sign, GenTie.and_sign_eq_and_sign,
-    GenTie.or_eq_zero, GenTie.toInt_eq, GenTie.len64_fin, GenTie.clz_fin, GenTie.ctz_fin, GenTie.popcount_fin, GenTie.I128_eq, GenTie.U128_eq, BitVec.toNat_eq, ne_eq, ge_iff_le, gt_iff_lt,
-    BitVec.reduceAnd, BitVec.reduceToNat, BitVec.reduceToInt, BitVec.reduceEq, BitVec.reduceNe,
-    decide_eq_true_eq, decide_eq_false_iff_not, Bool.decide_eq_true, decide_not, Bool.not_eq_true',
-    Bool.or_eq_true, Bool.and_eq_true, Bool.not_eq_true, Bool.or_eq_false_iff, Bool.and_eq_false_imp] at *)
+    linear arithmetic over `toNat` (two passes: the idioms first, then plain word equalities) -/
+macro "gen_norm" : tactic => `(tactic| (
+  (try simp only [GenTie.and_sign_eq_zero, GenTie.and_sign_ne_zero, GenTie.zero_eq_and_sign, GenTie.and_sign_eq_and_sign,
+    GenTie.or_eq_zero, GenTie.toInt_neg, GenTie.toInt_nonneg, GenTie.I128_eq, GenTie.U128_eq,
+    GenTie.len64_fin, GenTie.clz_fin, GenTie.ctz_fin, GenTie.popcount_fin, ne_eq, ge_iff_le, gt_iff_lt,
+    BitVec.reduceAnd, decide_eq_true_eq, decide_eq_false_iff_not, Bool.decide_eq_true, decide_not, Bool.not_eq_true',
+    Bool.or_eq_true, Bool.and_eq_true, Bool.not_eq_true, Bool.or_eq_false_iff, Bool.and_eq_false_imp,
+    Bool.ite_eq_true_distrib, Bool.ite_eq_false_distrib] at *) <;>
+  (try simp only [GenTie.toInt_eq, BitVec.toNat_eq, BitVec.reduceToNat, BitVec.reduceToInt, BitVec.reduceEq,
+    BitVec.reduceNe, Nat.not_lt, Nat.not_le, Int.not_lt, Int.not_le, decide_eq_true_eq, Bool.or_eq_true,
+    Bool.and_eq_true, Bool.not_eq_true', decide_eq_false_iff_not] at *)))
 
 /-- close one leaf: syntactic identity, or linear arithmetic over `toNat` -/
 macro "gen_leaf" : tactic => `(tactic| first
   | with_reducible rfl
   | omega
   | ((try simp (disch := omega) only [GenTie.toNat_sub_lit, GenTie.toNat_lit_sub, and_self, and_true, true_and] at *) <;>
-     (try simp only [U128.mk.injEq, I128.mk.injEq, Prod.mk.injEq, Bool.true_eq, Bool.false_eq, Bool.eq_true_iff,
-        decide_eq_true_eq, decide_eq_false_iff_not, decide_eq_decide, Bool.decide_or, Bool.decide_and,
-        Bool.or_eq_true, Bool.and_eq_true, Bool.or_eq_false_iff, Bool.and_eq_false_imp, Bool.true_eq_false,
-        Bool.false_eq_true, BitVec.toNat_eq, BitVec.toNat_ne, bitvec_to_nat, Int.toNat_natCast, Nat.reducePow, Nat.reduceMod, and_self, and_true, true_and] at *) <;> omega)
+     (try simp only [U128.mk.injEq, I128.mk.injEq, Prod.mk.injEq, Bool.true_eq, Bool.false_eq, iff_self,
+        decide_eq_true_eq, decide_eq_false_iff_not, Bool.or_eq_true, Bool.and_eq_true, Bool.or_eq_false_iff,
+        Bool.and_eq_false_imp, Bool.true_eq_false, Bool.false_eq_true, eq_self_iff_true, true_iff, iff_true,
+        false_iff, iff_false, not_true_eq_false, not_false_eq_true,
+        BitVec.toNat_eq, BitVec.toNat_ne, bitvec_to_nat, Int.toNat_natCast, Nat.reducePow,
+        and_self, and_true, true_and] at *) <;> omega)
   | (simp_all <;> omega))
 
-/-- `gen_tie [defs]`: unfold `defs` (generated and model definitions), normalise, split every `if`, close the leaves -/
-syntax "gen_tie" "[" Lean.Parser.Tactic.simpLemma,* "]" : tactic
+/-- `gen_tie [defs] [consts]`: state a `Bool` equation as an equivalence, unfold the function definitions `defs`
+    (generated and model) while turning `Bool` connectives into propositions, only then unfold the constants `consts`
+    (so that the `Decidable` instances under a `decide` still match when it is removed), normalise, split every `if`,
+    close the leaves -/
+syntax "gen_tie" "[" Lean.Parser.Tactic.simpLemma,* "]" ("[" Lean.Parser.Tactic.simpLemma,* "]")? : tactic
 macro_rules
+  | `(tactic| gen_tie [$ls,*] [$cs,*]) => `(tactic|
+      (try with_reducible refine Bool.eq_iff_iff.mpr ?_) <;>
+      (simp only [$ls,*, Bool.and_eq_true, Bool.or_eq_true, decide_eq_true_eq, Bool.ite_eq_true_distrib,
+        Bool.ite_eq_false_distrib, Bool.not_eq_true', decide_eq_false_iff_not, Bool.false_eq_true,
+        Bool.true_eq_false, eq_self_iff_true]) <;>
+      (try simp only [$cs,*]) <;> gen_norm <;> (try split_ifs) <;> gen_leaf)
   | `(tactic| gen_tie [$ls,*]) => `(tactic|
-      (simp only [$ls,*]) <;> gen_norm <;> (try split_ifs) <;> gen_leaf)
+      (try with_reducible refine Bool.eq_iff_iff.mpr ?_) <;>
+      (simp only [$ls,*, Bool.and_eq_true, Bool.or_eq_true, decide_eq_true_eq, Bool.ite_eq_true_distrib,
+        Bool.ite_eq_false_distrib, Bool.not_eq_true', decide_eq_false_iff_not, Bool.false_eq_true,
+        Bool.true_eq_false, eq_self_iff_true]) <;>
+      gen_norm <;> (try split_ifs) <;> gen_leaf)
